@@ -48,6 +48,10 @@ def gen_cases(tier, seed):
             N=int(rng.integers(1, 11)), n_ops=int(rng.integers(15, 60)),
             seed=int(rng.integers(1 << 30)),
         ))
+        if i % 12 == 0:
+            # larger buffers: NumPy sums >= 8 elements pairwise, so totals
+            # computed in two ways start to differ in the last bits
+            cases[-1].update(N=int(rng.choice([40, 120])), n_ops=260, cost=6.0)
     for i in range(20 if tier == "quick" else 200):
         cases.append(dict(kind="prio_fn", seed=int(rng.integers(1 << 30))))
     if tier == "thorough":
